@@ -30,6 +30,7 @@ MUTANTS = [
     ('C01', 'supp/nast.py', r"get_expr_end\(it\.context_expr\), np\(name\), node\)", "np(node.body[0]), np(name), node)", 'C01-R4'),
     ('C01', 'supp/scope.py', r"enumerate\(getattr\(node\.args, 'posonlyargs', \[\]\) \+ node\.args\.args\)", "enumerate(node.args.args)", 'C01-R2'),
     ('C01', 'supp/nast.py', r"    def visit_Global\(self, node\):\n        # type: \(ast\.Global\) -> None\n        self\.flow\.scope\.globals\.update\(node\.names\)", "    def visit_Global(self, node):\n        # type: (ast.Global) -> None\n        pass", 'C01-R2'),
+    ('C01', 'supp/scope.py', r"elif name\.name in self\.scope\.nonlocals:", "elif False:", 'C01-R2'),
     # ---- C02
     ('C02', 'supp/scope.py', r"if len\(self\.parents\) == 1:", "if len(self.parents) >= 1:", 'C02-R4'),
     ('C02', 'supp/nast.py', r"self\.flow = self\.make_flow\('join', \[body, orelse\]\)", "self.flow = self.make_flow('join', [orelse])", 'C02-R1'),
@@ -53,8 +54,10 @@ MUTANTS = [
     ('C05', 'supp/scope.py', r"return self\.parent\.names\n\n    @context_property", "return self.flow.names\n\n    @context_property", 'C05-R3'),
     ('C05', 'supp/scope.py', r"outer_names = set\(snames\)\.difference\(self\.scope\.locals\)", "outer_names = set(snames)", 'C05-R2'),
     ('C05', 'supp/scope.py', r"if self\.scope\.globals and pscope is not self\.scope\.top:", "if False:", 'C05-R3'),
+    ('C05', 'supp/scope.py', r"elif name\.name in self\.scope\.nonlocals:", "elif False:", 'C05-R3'),
+    ('C05', 'supp/nast.py', r"self\.flow\.scope\.nonlocals\.update\(node\.names\)", "pass", 'C05-R5'),
     ('C05', 'supp/nast.py', r"        self\.visit_in_flow\(node\.bases, cur\)\n(.*?)\n        scope = ClassScope\(cur\.scope, node, top=self\.top\)\n        cur\.add_name\(scope\)([^\n]*)", r"\1\n        scope = ClassScope(cur.scope, node, top=self.top)\n        cur.add_name(scope)\n        self.visit_in_flow(node.bases, scope.flow)", 'C05-R1'),
-    ('C05', 'supp/scope.py', r"        if name\.name in self\.scope\.globals:\n            self\.scope\.top\.add_global\(name\)\n        else:\n            self\.scope\.locals\.add\(name\.name\)\n            insert_loc", "        if False:\n            self.scope.top.add_global(name)\n        else:\n            self.scope.locals.add(name.name)\n            insert_loc", 'C05-R'),
+    ('C05', 'supp/scope.py', r"        if name\.name in self\.scope\.globals:\n            self\.scope\.top\.add_global\(name\)\n", "        if False:\n            self.scope.top.add_global(name)\n", 'C05-R'),
     ('C05', 'supp/scope.py', r"                if isinstance\(self\.scope, ClassScope\):\n                    return MergedDict\(snames\)\n                else:", "                if False:\n                    return MergedDict(snames)\n                else:", 'C05-R2'),
     # ---- C06
     ('C06', 'supp/name.py', r"for b in reversed\(self\.bases\):\n            attrs\.update\(b\._attrs\)", "for b in self.bases:\n            attrs.update(b._attrs)", 'C06-R1'),
